@@ -515,6 +515,64 @@ func c07(c *Ctx) {
 		}
 	})
 
+	c.Rule("C07.R5c", "a merge is total: every path through a merge site stores the series exactly once (no early exit that leaves the operand out, e.g. for a zero increment - the series' existence and timestamp are part of the result)", 8, func(r *Rule) {
+		seenFn := map[string]bool{}
+		for _, s := range sites {
+			// the declared merge entry points and the receive helpers: functions whose only job is this merge
+			if s.Fn.Parent() != nil || fnPkgPath(s.Fn) != Mod {
+				continue
+			}
+			if !(strings.HasPrefix(s.Fn.Name(), "Merge") || strings.HasPrefix(s.Fn.Name(), "receive")) {
+				continue
+			}
+			key := FuncName(s.Fn) + ":" + s.T
+			if seenFn[key] {
+				continue
+			}
+			seenFn[key] = true
+			T := s.T
+			// states: 0 nothing yet, 1 stored once, 2 series found (a path may leave it as it is), 3 stored twice
+			res := runAutomatonE(s.Fn, 0, func(in ssa.Instruction) int {
+				mu, ok := in.(*ssa.MapUpdate)
+				if !ok {
+					return -1
+				}
+				if mt, ok := mu.Map.Type().Underlying().(*types.Map); ok && isAggType(mt.Elem()) == T {
+					return 0
+				}
+				return -1
+			}, func(from, to *ssa.BasicBlock) int {
+				cd, ok := edgeCondResolved(from, to)
+				if !ok || !cd.Sense {
+					return -1
+				}
+				if ex, ok := cd.V.(*ssa.Extract); ok && ex.Index == 1 {
+					if lk, ok := ex.Tuple.(*ssa.Lookup); ok && lk.CommaOk {
+						if mt, ok := lk.X.Type().Underlying().(*types.Map); ok && isAggType(mt.Elem()) == T {
+							return 1
+						}
+					}
+				}
+				return -1
+			}, func(st, ev int) int {
+				switch {
+				case ev == 0 && (st == 0 || st == 2):
+					return 1
+				case ev == 0:
+					return 3
+				case ev == 1 && st == 0:
+					return 2
+				}
+				return st
+			})
+			var m uint32
+			for _, st := range res.ExitStates {
+				m |= st
+			}
+			r.Check(key+":stores-once-on-every-path", m&(1|8) == 0 && m != 0, s.Fn.Pos(), fmt.Sprintf("every path stores the %s exactly once, or found the series and left it as it is (exit states %b: bit0 = nothing stored for a series not known to exist, bit3 = stored twice)", T, m))
+		}
+	})
+
 	c.Rule("C07.R5b", "sibling agreement: the two not-found branches of a merge site (new tag set under a known name / new name) build the new series identically", 6, func(r *Rule) {
 		for _, s := range sites {
 			// outer lookup: comma-ok lookup on the collection type map[string]map[string]T
